@@ -244,6 +244,13 @@ pub fn rand_settings(rng: &mut Rng, reg: &PortableRegistry, cfg: &SetCfg) -> Set
                 "::ext::Fixed<u32>".into(),
                 "::ext::Mod<A>::Assoc".into(),
                 "::ext::Qual<a::A, A>".into(),
+                // subsets / reorderings of the source parameters
+                "::ext::OnlyB<B>".into(),
+                "::ext::OnlyC<C>".into(),
+                "::ext::CA<C, A>".into(),
+                "::ext::BIn<::ext::In<B>, bool>".into(),
+                "::ext::DB<D, B>".into(),
+                "::ext::Arr<::ext::Q<[B; 2]>, A>".into(),
             ];
             let mut tgt = rng.pick(&tgt_pool).clone();
             if declared == 0 && rng.chance(2, 3) {
